@@ -77,6 +77,10 @@ EXTRA = [
       signature={"oracle": "inflight_conflict"}, requires_layers=["MEAN"], max_layers=8,
       what="MEAN over the W axis only of a tensor with H>1: the depthwise operator it is lowered to is given an OFM of 1 x H while its IFM tiles describe 1 x W; the columns beyond IFM_WIDTH0 are fetched through the unused tile base (address 0) and collide with an in-flight weight DMA",
       example="findings/F11-mean-over-width-only.C04.json"),
+ dict(id="F12-identity-resize-renames-output", property="C11", status="known",
+      signature={"oracle": "interface_differs", "what": "outputs"}, requires_any=["RESIZE_NEAREST_NEIGHBOR", "RESIZE_BILINEAR"],
+      what="a RESIZE whose output size equals its input size is turned into Identity and removed (tflite_graph_optimiser.fixup_resize); when its output is a network output, the output model publishes the producer's tensor (other name) in that output slot",
+      example="findings/F12-identity-resize-renames-output.C11.json"),
 ]
 def main():
     import os
